@@ -11,7 +11,7 @@ VARIABLES tid, l
 ASSUME TLCSet(2, [t \in 1..Len(Traces) |-> 0])
 ASSUME TLCSet(5, [t \in 1..Len(Traces) |-> {}])
 ObsOK(o) == o.created = created' /\ o.n = (IF created' = "p" THEN 0 ELSE 1) /\ o.subscribed = subscribed' /\ ~o.exc
-PropsOK == OnlyAfterOwnSuccess' /\ AtMostOnce' /\ Unsubscribed' /\ PendingMeansOutstanding' /\ Creation'
+PropsOK == ((wait = "p" /\ wait' = "err") => OwnFailed' # {}) /\ OnlyAfterOwnSuccess' /\ AtMostOnce' /\ Unsubscribed' /\ PendingMeansOutstanding' /\ Creation'
            /\ ((wait = "p" /\ wait' = "ok" /\ mode = "all" /\ Regular /\ devUsed' = {}) => OwnStarted' = {} /\ OwnOk' # {})
            /\ ((wait = "p" /\ wait' = "err" /\ Regular /\ devUsed' = {}) => OwnOk' = {} /\ OwnStarted' = {})
 Step(e) ==
@@ -19,6 +19,7 @@ Step(e) ==
     [] e.a = "Upload"   -> Upload(e.s, e.d)
     [] e.a = "Uploaded" -> Uploaded(e.s, e.d)
     [] e.a = "Failed"   -> Failed(e.s, e.d)
+    [] e.a = "FetchFailed" -> FetchFailed(e.s, e.d)
     [] OTHER -> FALSE
 TInit == Init /\ tid \in 1..Len(Traces) /\ l = 1 /\ mode = Traces[tid].mode /\ hostEarly = Traces[tid].he
 TNext ==
